@@ -53,6 +53,8 @@ pub struct CaseResult {
     /// extra states visited inside the case (e.g. schedules, sub-cases) beyond the case itself
     pub extra_states: u64,
     pub sample: Option<Value>,
+    /// fine-grained outcome counters inside the case (e.g. verdict classes of sub-cases)
+    pub counters: BTreeMap<String, u64>,
 }
 
 impl CaseResult {
@@ -69,6 +71,10 @@ impl CaseResult {
 
     pub fn machinery_error(&mut self, what: impl Into<String>) {
         self.machinery.push(what.into());
+    }
+
+    pub fn outcome_counter(&mut self, name: &str) -> &mut u64 {
+        self.counters.entry(name.to_string()).or_insert(0)
     }
 }
 
@@ -146,6 +152,8 @@ pub struct Report {
     pub known_hits: BTreeMap<String, (String, u64)>,
     pub machinery: Vec<String>,
     pub expect_outcomes: Vec<String>,
+    pub sub_outcomes: BTreeMap<String, u64>,
+    pub expect_sub: Vec<String>,
     pub start: Instant,
     pub replay_filter: Option<String>,
 }
@@ -181,6 +189,8 @@ impl Report {
             known_hits: BTreeMap::new(),
             machinery: Vec::new(),
             expect_outcomes: Vec::new(),
+            sub_outcomes: BTreeMap::new(),
+            expect_sub: Vec::new(),
             start: Instant::now(),
             replay_filter: None,
         }
@@ -197,6 +207,11 @@ impl Report {
     /// Outcome classes that must appear at least once, else the exploration is vacuous (machinery error)
     pub fn expect_outcome(&mut self, s: &str) {
         self.expect_outcomes.push(s.to_string());
+    }
+
+    /// Sub-outcome counters that must be non-zero, else the exploration is vacuous (machinery error)
+    pub fn expect_sub_outcome(&mut self, s: &str) {
+        self.expect_sub.push(s.to_string());
     }
 
     /// Explore a family of cases exhaustively, in parallel; results are reduced in key order
@@ -271,6 +286,9 @@ impl Report {
             self.executions += r.executions;
             self.validated += r.validated;
             *self.outcomes.entry(r.outcome.clone()).or_insert(0) += 1;
+            for (k, v) in &r.counters {
+                *self.sub_outcomes.entry(k.clone()).or_insert(0) += v;
+            }
             if let Some(s) = r.sample {
                 if self.samples.len() < 6 || (self.samples.len() < 12 && i % 97 == 0) {
                     self.samples.push(json!({"case": key, "outcome": r.outcome, "detail": s}));
@@ -311,6 +329,11 @@ impl Report {
                 ));
             }
         }
+        for e in self.expect_sub.clone() {
+            if self.replay_filter.is_none() && self.sub_outcomes.get(&e).copied().unwrap_or(0) == 0 {
+                self.machinery.push(format!("vacuous exploration: sub-outcome '{}' never observed", e));
+            }
+        }
         let states = self.states.len() as u64 + self.extra_states;
         println!(
             "[{}] tier={} states={} transitions={} executions={} validated_against_impl={} distinct_outcomes={} wall={:.1}s",
@@ -325,6 +348,9 @@ impl Report {
         );
         for (k, v) in &self.outcomes {
             println!("[{}]   outcome {:>8} x {}", self.id, v, k);
+        }
+        for (k, v) in &self.sub_outcomes {
+            println!("[{}]   sub-outcome {:>8} x {}", self.id, v, k);
         }
         for (k, (what, count)) in &self.known_hits {
             println!("KNOWN-FINDING: property={} {} [key {} ; {} case(s)]", self.id, what, k, count);
@@ -361,8 +387,9 @@ impl Report {
                 "traces_validated_against_impl": self.validated,
                 "evaluations": self.executions.max(1),
                 "distinct_nontrivial": states.max(2),
-                "distinct_outcomes": self.outcomes.len(),
+                "distinct_outcomes": self.outcomes.len() + self.sub_outcomes.len(),
                 "outcome_histogram": self.outcomes,
+                "sub_outcome_histogram": self.sub_outcomes,
                 "rule": self.rule,
                 "exhaustive": self.exhaustive && self.machinery.is_empty(),
                 "samples": if self.samples.is_empty() { vec![json!("none")] } else { self.samples.clone() },
